@@ -172,6 +172,9 @@ class EngineWorld:
             return it.setitem(t[1], call.args[0], call.args[1])
         raise Unsupported("call target %r" % (t,))
 
+    def setfield(self, obj, name, v):
+        obj.fields[name] = v
+
     def get(self, obj, name):
         """read a field for specs (no property evaluation)"""
         if isinstance(obj, SObj):
@@ -370,6 +373,9 @@ class NativeWorld:
             t[1][call.args[0]] = call.args[1]
             return None
         raise Unsupported("call target %r" % (t,))
+
+    def setfield(self, obj, name, v):
+        setattr(obj, name, v)
 
     def get(self, obj, name):
         return getattr(obj, name)
